@@ -49,12 +49,12 @@ CHECKS = {
    note='Canonical codes for named members come from the member definition; for rgb/color256 from the statement. color256 out of range is not claimed (statement is silent).',
    technique='exhaustive enumeration of input spellings per equivalence class against a reference canonicaliser'),
  'C15': dict(engine='langenum', design='4/C15',
-   text='Bounded exhaustive: every setting text of length 1..5/6 over 13 bytes (digits, ;, space, 0x3F, m, 0x40, 0x7E, 0x7F) and every ;-list of <=4-6 tokens over 15 tokens, flags queried in both orders twice (they are cached), against a reference grammar; every AnsiFormat member/name/known code/in-range helper result; BFS pools with 7 verbatim settings: is_formatting_valid/parsable vs the conjunction over settings in use, SGR-removal and setting-intact clauses under all 8 rendering flag combinations.',
+   text='Bounded exhaustive: every setting text up to length 4 (quick) / 5 (thorough) over 17 characters (digits, ;, space, 0x3F, m, 0x40, 0x7E, 0x7F, _, +, -, a full-width digit) and every ;-list of <=4-6 tokens over 18 tokens (incl. +1, 1_0, spaced and zero-padded numbers), flags queried in both orders twice (they are cached), against a reference grammar; every AnsiFormat member/name/known code/in-range helper result; BFS pools with 9 verbatim settings: is_formatting_valid/parsable vs the conjunction over settings in use, SGR-removal and setting-intact clauses under all 8 rendering flag combinations.',
    note='Reading: tokens with spaces/leading zeros judged by integer value. The setting-intact clause is applied to unoptimised renderings (the optimiser may legitimately drop shadowed parsable settings).',
    technique='exhaustive enumeration of setting texts against a reference grammar + explicit-state BFS for the rendering clause'),
  'C02': dict(engine='langenum', design='4/C02',
-   text='Bounded exhaustive enumeration: every SGR code list up to length 5/6 over an 11-code alphabet (set, clear, reset, unknown, extended-colour ingredients) after 5 prior-state contexts, and every token sequence up to length 5/6 over 13 tokens (text, 6 SGR sequences, non-SGR/unterminated control sequences, lone ESC and [), constructed through the real AnsiString/AnsiStr and compared character by character with an independent SGR terminal run over the raw input.',
-   note='Trusted: mc/refterm.py. Ambiguous SGR readings (38;x, components>255) are checked for text only. Not claimed beyond the stated lengths/alphabets.',
+   text='Bounded exhaustive enumeration: every SGR code list up to length 5/6 over an 11-code alphabet (set, clear, reset, unknown, extended-colour ingredients) after 5 prior-state contexts, every token sequence up to length 4 (quick) / 6 (thorough) over 15 tokens (text, 6 SGR sequences, non-SGR control sequences incl. the boundary final bytes @ and ~, unterminated sequences, lone ESC and [), and the same token language behind 300 characters of plain text (change points beyond offset 256), constructed through the real AnsiString/AnsiStr and compared character by character with an independent SGR terminal run over the raw input.',
+   note='Trusted: mc/refterm.py. The ambiguous reading 38;x (x not 2/5) is judged against the admissible set (drop 38 only | drop 38 and x); components>255 / empty / non-decimal parameters are checked for text only. Not claimed beyond the stated lengths/alphabets.',
    technique='explicit-state exhaustive enumeration of the input prefix tree against a reference SGR terminal'),
  'C04': dict(engine='explore', design='4/C04',
    text='Explicit-state BFS over real AnsiString objects (histories of apply/remove over every range with conflicting, equal and multi-parameter settings, plus concat/pad/slice steps; dedup by exact canonical object graph) to depth 2 (quick) / 3 (thorough) on texts of length 1-6; in every state every (start, stop) in ([-L-2..L+2]+None)^2 through v[i:j], clip, AnsiStr slicing, every integer index, step-1 slice objects, in-place clip and iteration is compared with Python slicing of the per-character model, and every result is probed for closedness by appending to it.',
@@ -73,11 +73,11 @@ CHECKS = {
    note='Trusted: mc/model.py. Bounds as in evidence.',
    technique='explicit-state BFS over operation histories with lock-step reference-model comparison'),
  'C18': dict(engine='langenum', design='4/C18',
-   text='Bounded exhaustive enumeration: every code list of length 0..5/6 over 14 codes in three input forms x add_erroneous, every code 0..255, every ordered pair of known codes, every sequence of <=4 parameter groups (complete and incomplete extended colours), and settings_to_dict on every (list<=3, prior list<=2); each reduced state compared with an independent SGR terminal, arguments snapshotted.',
+   text='Bounded exhaustive enumeration: every code list of length 0..5/6 over 14 codes in three input forms x add_erroneous, every code 0..255, every ordered pair of known codes, every sequence of <=4 parameter groups (complete and incomplete extended colours), and settings_to_dict on every (list<=3, prior list<=2); each reduced state compared with an independent SGR terminal (admissible set for the ambiguous 38;x readings), arguments snapshotted; history-dependent violations (state kept between calls) are confirmed by re-running their task in a fresh process.',
    note='Trusted: mc/refterm.py. Ambiguous lists excluded from the state clause (counted).',
    technique='explicit-state exhaustive enumeration of code lists against a reference SGR reducer'),
  'C19': dict(engine='langenum', design='4/C19',
-   text='Bounded exhaustive enumeration (prefix tree) of every string up to length 6 (quick) / 7 (thorough) over a 9-symbol alphabet (ESC, [, digit, ;, ?, m, another final byte, space, non-ASCII) x the 6 constructor flag combinations, each parsed by the real ParsedAnsiControlSequenceString and compared with an independent regex tokenizer and a re-inserter; every helper function x 8 boundary integers. Exhaustive within the bound, which covers every way up to three sequences and text can abut, nest or be cut short.',
+   text='Bounded exhaustive enumeration (prefix tree) of every string up to length 6 (quick) / 7 (thorough) over a 9-symbol alphabet (ESC, [, digit, ;, ?, m, another final byte, space, non-ASCII), one symbol shorter over that alphabet plus the boundary bytes @ ~ DEL, and every string up to length 6/7 over {ESC, [, m, digit} behind 300-1000 characters of text (removal points beyond offset 256), x the 6 constructor flag combinations, each parsed by the real ParsedAnsiControlSequenceString and compared with an independent regex tokenizer and a re-inserter; every helper function x 8 boundary integers.',
    note='Trusted: mc/reftok.py (15 lines); inputs whose parameter bytes lie outside 0x30-0x3F are judged on losslessness only. Not claimed beyond length 7 / other alphabets.',
    technique='explicit-state exhaustive enumeration of the input prefix tree against a reference tokenizer'),
 }
